@@ -15,6 +15,7 @@ import (
 )
 
 type SpecScope struct {
+	inOld   bool
 	names   map[string]*Value
 	old     *State
 	bound   map[string]*Term
@@ -236,6 +237,17 @@ func (x *Exec) specIdent(name string, sc *SpecScope, st *State) *Value {
 	for s := sc; s != nil; s = s.parent {
 		if t, ok := s.bound[name]; ok {
 			return &Value{Tm: t}
+		}
+	}
+	inOld := false
+	for s := sc; s != nil; s = s.parent {
+		if s.inOld {
+			inOld = true
+		}
+	}
+	if inOld {
+		if v, ok := sc.lookup(name); ok {
+			return v
 		}
 	}
 	for s := sc; s != nil; s = s.parent {
@@ -627,7 +639,11 @@ func (x *Exec) specCall(e *ast.CallExpr, sc *SpecScope, st *State) *Value {
 		if sc.old == nil {
 			panic(engErr("old() not available here"))
 		}
-		return x.evalSpec(e.Args[0], sc, sc.old)
+		// old(e): the entry heap; parameters denote their entry values, other locals their current values
+		os := sc.oldState()
+		hyb := &State{guard: st.guard, env: st.env, heap: os.heap, allocBase: os.allocBase, allocK: os.allocK}
+		osc := &SpecScope{names: map[string]*Value{}, parent: sc, old: sc.old, pkg: sc.pkg, inOld: true}
+		return x.evalSpec(e.Args[0], osc, hyb)
 	case "implies__":
 		return &Value{T: bt, Tm: Implies(arg(0).Tm, arg(1).Tm)}
 	case "ite":
@@ -879,6 +895,40 @@ func (x *Exec) coerceToSortV(v *Value, s *Sort, st *State) *Term {
 	return x.coerceToSort(v, s)
 }
 
+// specAddr computes the heap location designated by a selector chain p.f.g where p is a pointer.
+func (x *Exec) specAddr(e ast.Expr, sc *SpecScope, st *State) (*Pointer, types.Type, bool) {
+	switch e := e.(type) {
+	case *ast.ParenExpr:
+		return x.specAddr(e.X, sc, st)
+	case *ast.SelectorExpr:
+		// base is a pointer value?
+		if bp, bt, ok := x.specAddr(e.X, sc, st); ok {
+			p, ft := x.specFieldPtr(bp, bt, e.Sel.Name)
+			if ft == nil {
+				return nil, nil, false
+			}
+			return p, ft, true
+		}
+		base := x.evalSpec(e.X, sc, st)
+		if base.P != nil && base.T != nil {
+			et, _ := derefType(base.T)
+			p, ft := x.specFieldPtr(base.P, et, e.Sel.Name)
+			if ft == nil {
+				return nil, nil, false
+			}
+			return p, ft, true
+		}
+		return nil, nil, false
+	case *ast.StarExpr:
+		v := x.evalSpec(e.X, sc, st)
+		if v.P != nil && v.T != nil {
+			et, _ := derefType(v.T)
+			return v.P, et, true
+		}
+	}
+	return nil, nil, false
+}
+
 // specLocs evaluates a modifies designator.
 func (x *Exec) specLocs(src string, sc *SpecScope, st *State, c *Contract) []*specLoc {
 	src = strings.TrimSpace(src)
@@ -921,6 +971,11 @@ func (x *Exec) specLocs(src string, sc *SpecScope, st *State, c *Contract) []*sp
 		}
 		et, _ := derefType(pv.T)
 		return []*specLoc{{ptr: pv.P, t: et}}
+	}
+	if _, isSel := e.(*ast.SelectorExpr); isSel {
+		if p, ft, ok := x.specAddr(e, sc, st); ok {
+			return []*specLoc{{ptr: p, t: ft}}
+		}
 	}
 	v := x.evalSpec(e, sc, st)
 	if v.P == nil {
